@@ -114,6 +114,7 @@ class Sched:
         self.personality = cfg.get('personality', 'uniform')
         self.p_switch = cfg.get('p_switch', 0.3)
         self.p_time = cfg.get('p_time', 0.05)
+        self.max_desched = cfg.get('max_desched', 0.25)
         self.step_cap = cfg.get('step_cap', 200000)
         self.actors = []
         self.cur = None
@@ -261,7 +262,10 @@ class Sched:
             starve = None
             if self.personality.startswith('starve:'):
                 starve = self.personality[7:]
-            if self.timers and self.p_time > 0:
+            if (self.timers and self.p_time > 0 and
+                    self.timers[0][0] - self.clock <= self.max_desched):
+                # a runnable process may be descheduled by the OS for a while
+                # (bounded: this models jitter, not a stalled machine)
                 p = self.p_time
                 if starve and all(a.name.startswith(starve) for a in r):
                     p = 0.7
